@@ -315,7 +315,7 @@ func (q *Query) Parse() (pr *ParseResult, err error) {
 			1, 0, 0, 0, 0,
 			utils.InstanceConfig.Timezone)
 		pr.Range.End = time.Date(
-			pr.Range.End.Year(),
+			int(endYear),
 			time.December,
 			31, 23, 59, 59, 999999999,
 			utils.InstanceConfig.Timezone)
